@@ -509,7 +509,7 @@ func toSubdomainURL(hostname, path string, r *http.Request, inlineDNSLink bool, 
 	if err != nil {
 		return "", err
 	}
-	u.RawFragment = r.URL.RawFragment
+	u.Fragment, u.RawFragment = r.URL.Fragment, r.URL.RawFragment
 	u.RawQuery = r.URL.RawQuery
 	if rest != "" {
 		u.Path = rest
